@@ -48,6 +48,30 @@ CLAIMS = {
              ref="§3 C07", note=NOTE_COMMON),
 }
 
+# entries added in rounds 7-8 (DESIGN §3, second table)
+EXTRA = {
+ "C01": " Also: an earlier publish to every type before the operation, SubscribeContext among the operations.",
+ "C03": " Also: a handler unsubscribing itself; pairs of waiters (Wait/Shutdown/Publish) with an async invocation in flight (sync.Cond, TryLock modelled).",
+ "C04": " Also: the after-publish hook's view of a fired Once handler, incl. a hook that panics.",
+ "C05": " Also: a panicking handler subscribed through SubscribeWithReplay (handler type reported).",
+ "C06": " Also: two waiters at once, Shutdown after a successful Shutdown, a panic report that is still running and publishing.",
+ "C07": " Also: registry changes around a Sequential handler, Once retirement while it is being subscribed.",
+ "C08": " Also: context values under arbitrary string keys with the OpenTelemetry observability.",
+ "C09": " Also: a lost append acknowledgement on the durable-streams store.",
+ "C10": " Also: a failed-then-retried SaveOffset on SQLite; concurrent appends on the memory store.",
+ "C11": " Also: replay resumed from event offsets on the durable-streams store (strict server; lenient server = recorded finding), 11-12 events in one response.",
+ "C12": " Also: a resumed subscription followed by a fault; SQLite streaming row by row.",
+ "C13": " Also: appends acknowledged after the deadline passed, an application hook after the store, a publisher deadline next to the persistence timeout.",
+ "C15": " Also: same-name distinct (function-local) types, instantiated generic types.",
+ "C16": " Also: every sequence/order of registrations over arbitrary SMT-string names through the public API (5-6 registrations), typed registration with arbitrary TypeNamer names.",
+ "C17": " Also: error handler explicitly nil or removed, a refused registration before the replay.",
+ "C18": " Also: header timestamps decreasing along the log, messages inside an application envelope type.",
+ "C19": " Also: helpers and collection instantiated with an interface type.",
+ "C20": " Also: two publishers contending for the store lock, a handler ending with runtime.Goexit.",
+}
+for _k, _v in EXTRA.items():
+    CLAIMS[_k]["text"] += _v
+
 NOT_APPLICABLE = {
  "C14": "durability across SIGKILL/reopen is a property of SQLite's pager/WAL (modernc.org/sqlite, machine-translated C) and the kernel; it cannot be encoded by an SSA->SMT translator within reach, and a model that assumed durability would prove nothing (DESIGN §4)",
 }
